@@ -28,7 +28,7 @@ type phase struct {
 
 type C06Scenario struct {
 	Knobs     hx.SimKnobs `json:"knobs"`
-	Gen       string      `json:"gen"` // hard | mono | nano | nanonl (the lock-free variant under a lock of the caller's)
+	Gen       string      `json:"gen"`        // hard | mono | nano | nanonl (the lock-free variant under a lock of the caller's)
 	NanoStart int         `json:"nano_start"` // nano: 0 -> starts at 0; 1 -> starts one hour ahead of the clock (a persisted id of a faster clock)
 	BadNode   int         `json:"bad_node"`   // hard/mono: 1 -> node -1, 2 -> node max+1, 3 -> 2*max+1: the constructor must refuse (else ids carry a wrong node)
 	NodeBits  uint8       `json:"node_bits"`
